@@ -388,9 +388,9 @@ func runEventSeq(es evSeq, tie *lib.Tie, mon *lib.Monitor, drv *lib.Driver) {
 }
 
 // runValueEventSeq: the same for resource.Value. Here even a lossy consumer receives the bus's object (DropExcess keeps
-// the latest pointer, it does not copy), so an unmasked event object is shared by ALL unmasked subscribers. Monitor only
-// (the Lean event model covers the Collection pipelines).
-func runValueEventSeq(es evSeq, mon *lib.Monitor) {
+// the latest pointer, it does not copy), so an unmasked event object is shared by ALL unmasked subscribers. Tied to the
+// Lean event model's Value subscribers (vsub / vsend / dropIn) on what the backpressure consumers receive and share.
+func runValueEventSeq(es evSeq, tie *lib.Tie, mon *lib.Monitor, drv *lib.Driver) {
 	r := seqRand(es.Seed, "core-events-value", es.Seq)
 	val := resource.NewValue(resource.WithInitialValue(&traits.FanSpeed{Percentage: 1, PresetIndex: 7}))
 	tr := newTracker()
@@ -402,7 +402,17 @@ func runValueEventSeq(es evSeq, mon *lib.Monitor) {
 		mu     sync.Mutex
 		got    []*resource.ValueChange // pace "drain": a goroutine receives (a write waits for backpressure consumers)
 		taken  int
+		lossy  bool
+		mask   bool
+		first  int // index in got of the event of the first Set after it subscribed (1 when it got a seed)
+		since  int // Sets before it subscribed
 	}
+	sets := 0
+	lines := []string{"ev reset"}
+	code := []string{"ok"}
+	canon := map[*resource.ValueChange]int{}
+	var seen []*resource.ValueChange
+	showV := func(e *resource.ValueChange) string { return "UPDATE,0,-," + evTok(e.Value) }
 	type vsnap struct {
 		ptr    *resource.ValueChange
 		copy   resource.ValueChange
@@ -425,15 +435,17 @@ func runValueEventSeq(es evSeq, mon *lib.Monitor) {
 		if lossy {
 			pace = []string{"stalled", "slow", "drain"}[r.Intn(3)]
 		}
-		opts := []resource.ReadOption{resource.WithBackpressure(!lossy), resource.WithUpdatesOnly(r.Intn(2) == 0)}
+		updatesOnly := r.Intn(2) == 0
+		opts := []resource.ReadOption{resource.WithBackpressure(!lossy), resource.WithUpdatesOnly(updatesOnly)}
 		kind := map[bool]string{true: "lossy-" + pace, false: "backpressure"}[lossy]
 		if mask {
 			opts = append(opts, resource.WithReadMask(&fieldmaskpb.FieldMask{Paths: []string{"percentage"}}))
 			kind += "+mask"
 		}
 		ctx, cancel := context.WithCancel(context.Background())
-		sb := &vsub{kind: kind, ch: val.Pull(ctx, opts...), cancel: cancel, pace: pace}
+		sb := &vsub{kind: kind, ch: val.Pull(ctx, opts...), cancel: cancel, pace: pace, lossy: lossy, mask: mask, first: b2i(!updatesOnly), since: sets}
 		subs = append(subs, sb)
+		lines, code = append(lines, fmt.Sprintf("ev vsub %d %d", b2i(lossy), b2i(mask))), append(code, "ok")
 		if pace == "drain" {
 			go func() {
 				for e := range sb.ch {
@@ -511,6 +523,47 @@ func runValueEventSeq(es evSeq, mon *lib.Monitor) {
 			_, err := val.Set(&traits.FanSpeed{Percentage: float32(2 + step), PresetIndex: 7})
 			trace = append(trace, fmt.Sprintf("%d: Set(%d) -> %v", step, 2+step, err))
 			mon.Count("op:Value.Set")
+			if err == nil {
+				sets++
+				// every backpressure consumer receives exactly one event per Set (no equivalence configured)
+				parts := []string{"ok"}
+				for i, s := range subs {
+					if s.lossy {
+						continue
+					}
+					want := s.first + sets - s.since
+					deadline := time.Now().Add(3 * time.Second)
+					for {
+						s.mu.Lock()
+						n := len(s.got)
+						s.mu.Unlock()
+						if n >= want || time.Now().After(deadline) {
+							break
+						}
+						runtime.Gosched()
+					}
+					s.mu.Lock()
+					if len(s.got) < want {
+						parts = append(parts, fmt.Sprintf("<subscriber #%d: event missing>", i))
+					} else {
+						e := s.got[want-1]
+						k, ok := canon[e]
+						if !ok {
+							k = len(seen)
+							canon[e] = k
+							seen = append(seen, e)
+						}
+						parts = append(parts, fmt.Sprintf("#%d:%s", k, showV(e)))
+					}
+					s.mu.Unlock()
+				}
+				au := make([]string, len(seen))
+				for i, e := range seen {
+					au[i] = showV(e)
+				}
+				lines = append(lines, fmt.Sprintf("ev vsend %d", 2+step), "ev audit")
+				code = append(code, strings.Join(parts, "|"), "seen="+strings.Join(au, ";"))
+			}
 		}
 		receive(false)
 		check("Set", step+1)
@@ -519,6 +572,29 @@ func runValueEventSeq(es evSeq, mon *lib.Monitor) {
 	receive(true)
 	check("final-drain", es.Steps)
 	mon.Eval(fmt.Sprintf("value/%d/%d", es.Seed, es.Seq), len(snaps) >= 4, nil)
+	if tie == nil || drv == nil {
+		return
+	}
+	model, err := drv.Batch(lines)
+	if err != nil {
+		tie.Fail(err)
+		return
+	}
+	key := fmt.Sprintf("value/%d/%d", es.Seed, es.Seq)
+	for j := range code {
+		if j >= len(model) || model[j] != code[j] {
+			m := "<no answer>"
+			if j < len(model) {
+				m = model[j]
+			}
+			in := input(es.Steps)
+			in["line"] = lines[j]
+			in["lines"] = lines[:j+1]
+			tie.Record(key, true, in, m, code[j])
+			return
+		}
+	}
+	tie.Record(key, len(snaps) >= 4, input(es.Steps), model[len(model)-1], code[len(code)-1])
 }
 
 func b2i(b bool) int {
@@ -533,7 +609,8 @@ func runEvents(f lib.Flags, res *lib.Result) {
 		"one resource.Collection, 1-6 subscribers (backpressure or lossy, with or without a read mask, opened before and between writes; lossy consumers stalled, slow or drained), "+
 			"random Update(create)/Delete on 2 ids; after EVERY write the Lean event model (Events.lean: bus fan-out of one shared cell, filter, private merger copies) and the code are compared on: what "+
 			"each backpressure consumer received, WHICH consumers received the same object (pointers numbered in first-seen order), and the current contents of every event object seen so far; "+
-			"per sequence additionally the model's theorem for lossy consumers (their objects are held by nobody else); non-trivial = at least 2 subscribers and 4 received events; distinct = distinct sequences")
+			"per sequence additionally the model's theorem for lossy Collection consumers (their objects are held by nobody else); half as many sequences on a resource.Value "+
+			"(Set; subscribers with and without seed) compared the same way; non-trivial = at least 2 subscribers and 4 received events; distinct = distinct sequences")
 	mon := res.Monitor("snapshot-core-events",
 		"the same sequences (and as many on a resource.Value, where DropExcess hands the bus's object even to lossy consumers): every event object any consumer receives (shared bus objects, filtered copies, merger output of stalled / slow / drained lossy subscribers) is copied field by field at receipt "+
 			"(kind, id, time, seed flags, identity of old and new value) and compared after every later op and after the final drain; the values go to the snapshot tracker; independent of the Lean model")
@@ -559,7 +636,7 @@ func runEvents(f lib.Flags, res *lib.Result) {
 		if q < 6 {
 			steps = 3 + q
 		}
-		runValueEventSeq(evSeq{Kind: "events-value", Seed: f.Seed, Seq: q, Steps: steps}, mon)
+		runValueEventSeq(evSeq{Kind: "events-value", Seed: f.Seed, Seq: q, Steps: steps}, tie, mon, drv)
 	}
 	for k, v := range mon.Distribution {
 		tie.Distribution[k] = v
